@@ -43,6 +43,7 @@ type SVal struct {
 	Cap    string
 	Snap   string // KSlice: array term at the time the value was recorded in an event
 	Src    string // provenance: where the value was loaded from (heap key, parameter or free variable name)
+	NilC   string // KLoc: Bool term "this pointer is nil" for a pointer read out of state the function does not control ("" = known non-nil)
 	GoT    types.Type
 }
 
